@@ -94,10 +94,37 @@ class Outcome:
         return 1 if self.violations else 0
 
 
+_cov = None
+
+
+def cov_start():
+    """VERIF_COV=<dir>: record which lines of the library a check executes (tools/covreport.sh); off otherwise."""
+    global _cov
+    d = os.environ.get('VERIF_COV')
+    if not d:
+        return
+    if _cov is None or _cov[1] != os.getpid():
+        import coverage
+        from . import REPO
+        _cov = (coverage.Coverage(data_file=os.path.join(d, '.coverage'), data_suffix=True,
+                                  source=[os.path.join(REPO, 'diskcache')], concurrency=['thread']), os.getpid())
+    _cov[0].start()
+
+
+def cov_stop():
+    if _cov is not None and _cov[1] == os.getpid():
+        _cov[0].stop()
+        _cov[0].save()
+
+
 def _job(args):
     fn, a = args
     try:
-        return ('ok', fn(*a))
+        cov_start()
+        try:
+            return ('ok', fn(*a))
+        finally:
+            cov_stop()
     except MachineryError as exc:
         return ('machinery', str(exc))
     except BaseException:
